@@ -31,6 +31,12 @@ Every event is executed through `Cache.transaction(mode)` / the `Cache` command 
 cache, and every command also on a second `Cache` whose `Memory` started as a copy of the first ("direct").
 After each event the raw backend stores are read without touching them (the outside observer).
 
+Fan-out: `fan gather|task|group <command> | <command> | ...` issues the commands from CHILD tasks that the body awaits inside the
+block - `await asyncio.gather(c1, c2, ...)`, `await asyncio.create_task(c)` one after the other, or an `asyncio.TaskGroup` - the
+usage of upstream's test_gather.  A child task inherits a copy of the context and with it the transaction: its commands are commands
+of the transaction (buffered, invisible outside, rolled back with it, and they see the earlier writes).  The children run one at a
+time (a lock of the harness), so the trace holds one ordinary line per command, in the order in which they ran.
+
 Control state: `disable <word>...` / `enable <word>...` (anywhere in a program; words = the protocol words of the commands)
 call `cache.disable(Command.X, ...)` / `cache.enable(...)` on the transactional cache and on the direct copy.  A command that
 is disabled when it is issued goes nowhere and hands back its default (`N` = None); commands that were enabled when issued
@@ -309,6 +315,7 @@ class TxRunner:
         self.seg_marked: dict[str, set] = {}        # pattern -> store keys it marked for deletion in this segment
         self.disabled: set[str] = set()             # protocol words of the commands that are disabled right now
         self.seg_accepted: set[str] = set()         # write commands accepted into the running transaction segment
+        self.seg_child_writes = False               # a child task wrote inside the running segment
 
     def bump(self, k: str):
         self.stats[k] = self.stats.get(k, 0) + 1
@@ -488,6 +495,8 @@ class TxRunner:
         if txb is None:
             return
         pending = bool(txb._local_cache.store) or bool(txb._to_delete)
+        if self.seg_child_writes:
+            self.bump(f"{how}_after_writes_from_child_tasks")
         if pending and how in ("commit", "commitnow") and self.disabled:
             self.bump("commit_under_a_control_state")
             for wcmd in self.seg_accepted:
@@ -555,6 +564,38 @@ class TxRunner:
             self.trace.append(("init " + line, "ok " + await self.views()))
         else:
             self.trace.append((line, f"tx={a} direct={b} " + await self.views()))
+
+    async def _fan(self, line: str):
+        """the commands of a `fan` line, each issued from a child task that is awaited here"""
+        _, how, rest = line.split(None, 2)
+        cmds = [c.strip() for c in rest.split("|") if c.strip()]
+        gate = asyncio.Lock()
+        parent = asyncio.current_task()
+
+        async def child(c: str):
+            async with gate:
+                if asyncio.current_task() is parent:
+                    raise RuntimeError("a fan-out command must run in a child task")
+                if self.frames:
+                    self.bump(f"command_from_a_child_task_inside_block_{how}")
+                    if c.split()[0] in WRITE_CMDS:
+                        self.bump("write_from_a_child_task_inside_block")
+                        self.seg_child_writes = True
+                    elif self.seg_accepted:
+                        self.bump("read_from_a_child_task_after_writes")
+                await self._command(c)
+
+        if how == "gather":
+            await asyncio.gather(*(child(c) for c in cmds))
+        elif how == "task":
+            for c in cmds:
+                await asyncio.create_task(child(c))
+        elif how == "group":
+            async with asyncio.TaskGroup() as tg:
+                for c in cmds:
+                    tg.create_task(child(c))
+        else:
+            raise ValueError(f"bad fan-out {line}")
 
     async def _control(self, line: str, w: list[str]):
         from cashews import Command
@@ -626,6 +667,7 @@ class TxRunner:
                     self.after_explicit = ""
                     self.seg_patterns, self.seg_marked = [], {}
                     self.seg_accepted = set()
+                    self.seg_child_writes = False
 
         res = "U"
         came_out = "ok"
@@ -692,11 +734,15 @@ class TxRunner:
                 self.resync()
                 self.seg_patterns, self.seg_marked = [], {}
                 self.seg_accepted = set()
+                self.seg_child_writes = False
                 if self.frames:
                     self.after_explicit = w[0]
                 continue
             if w[0] in ("disable", "enable"):
                 await self._control(line, w)
+                continue
+            if w[0] == "fan":
+                await self._fan(line)
                 continue
             await self._command(line)
         return "ok"
@@ -996,6 +1042,11 @@ def gen_events(rng, maxlen: int, crossing: bool) -> list[str]:
                 ev.append(rng.choice(["rollback", "rollback", "commitnow"]))
             elif r < 0.48:
                 ev.append(gen_control(rng))                    # ... or in the middle of one
+            elif r < 0.56:
+                # fan-out: commands issued from child tasks the body awaits
+                how = rng.choice(["gather", "gather", "task", "group"])
+                k = rng.choice([1, 2, 2, 3]) if how != "task" else rng.choice([1, 1, 2])
+                ev.append(f"fan {how} " + " | ".join(gen_command(rng, ttls, recent) for _ in range(k)))
             else:
                 c = gen_command(rng, ttls, recent)
                 ev.append(c)
@@ -1192,3 +1243,27 @@ def control_cases():
                             ev.append(dis)
                         ev += [f"exit {'exc' if i % 5 == 0 else 'ok'}", "enable " + " ".join(CONTROL_WORDS), "getmany 0 2 4", "getexpire 4"]
                         yield {"config": "facade", "init": ini + ["adv 3"], "events": ev}
+
+
+# ----------------------------------------------------------------------------------------------------
+# fan-out inside a block, enumerated
+
+def fanout_cases():
+    """writes and reads issued from child tasks (`asyncio.gather` of three commands / `await create_task(...)` / a TaskGroup) inside
+    a block of each mode, before and after writes of the parent task, the outside observer probing after every command, the block
+    ended by commit / an exception / a cancellation / an explicit rollback followed by more child writes"""
+    for mode in MODES:
+        for how in ("gather", "task", "group"):
+            for end in ("ok", "exc", "cancel", "rollback"):
+                for ini in (["set 2 i:5 - a", "set 4 t:3 83 a"], []):
+                    ev = [f"enter {mode}", "set 0 t:1 - a",
+                          f"fan {how} set 0 t:9 16 a | delete 2 | incr 4 1 -",
+                          "getmany 0 2 4",
+                          f"fan {how} get 0 | exists 2 | set 2 t:7 - nx",
+                          f"fan {how} delmatch {enc('kb2*')} | scan {enc('k*')}"]
+                    if end == "rollback":
+                        ev += ["rollback", f"fan {how} set 4 t:8 - a | get 4", "exit ok"]
+                    else:
+                        ev.append(f"exit {end}")
+                    ev += ["getmany 0 2 4", f"fan {how} set 0 i:1 - a | get 0"]
+                    yield {"config": "facade", "init": ini + ["adv 3"], "events": ev}
